@@ -11,7 +11,7 @@ LEVEL_TEXT = ("Theorems in Coq (Props/C19.v) over a function-by-function model o
               "The model is run (extracted to OCaml) on the same scripted sources and chunkings as the real package and every delivered byte compared.")
 LEVEL_NOTE = ("Trusted: Coq kernel, extraction (ExtrOcamlBasic directives only), the Go driver's scripted io.Reader being the twin of "
               "PadModel.src_read, generator coverage. cipher.BlockMode is abstract in the theorems (state machine, block-aligned, "
-              "dec after enc = id); checked with a toy chaining mode against the model and with real SM4-CBC against the stdlib oracle. "
+              "dec after enc = id) and instantiated without premise for CBC over the GM/T 0002 specification of SM4 (C19_stream_roundtrip_sm4_cbc); checked with a toy chaining mode against the model and with real SM4-CBC against the stdlib oracle. "
               "Source errors other than io.EOF and failing sinks are outside the model.")
 TRUSTED_BASE = [
     "model coq/Pad/PadModel.v written by hand from sm4/padding/*.go; tied by the correspondence run of this check",
